@@ -201,6 +201,16 @@ def judge (e : Expect) (impl : List String) : String :=
       | some (M, []) => judgeOut e.name e.K e.int o M
       | _ => "FAIL:parse") "ok"
 
+/-- `judge`, preceded by the clause of the known finding `C04-degenerate-shape-storage-dependence`:
+`mconf` is the conformability of the operands as matrices (the dimensions on the wire), `e.conf` the
+one the routine sees through the dimensions *reported* by the storage classes; they differ only when
+an operand with exactly one zero dimension is stored by rows or by columns (it reports 0x0), and then
+whether the call raises depends on the class -/
+def judgeDep (mconf : Bool) (e : Expect) (impl : List String) : String :=
+  if isCrash impl then judge e impl
+  else if mconf != e.conf then "FAIL:storage_independent_degenerate"
+  else judge e impl
+
 /-! ## state -/
 
 structure St where
@@ -255,21 +265,19 @@ def firstExtremum (lt : Rat → Rat → Bool) (a : Spec.Fn Rat) (r c i j : Nat) 
 def lapFuel (n : Nat) : Nat := n * n + n + 1
 
 /-- what the harness prints for `lap` -/
-def showLap (n : Nat) (a : Lap.Full Float) : String :=
-  let ix := List.range n
-  "cost " ++ showF a.cost ++ " ; rowsol " ++ " ".intercalate (ix.map fun i => toString (a.rowSol i))
-    ++ " ; colsol " ++ " ".intercalate (ix.map fun j => toString (a.colSol j))
-    ++ " ; u " ++ " ".intercalate (ix.map fun i => showF (a.u i))
-    ++ " ; v " ++ " ".intercalate (ix.map fun j => showF (a.v j))
+def showLap (a : Lap.LapOut Float) : String :=
+  "cost " ++ showF a.cost ++ " ; rowsol " ++ " ".intercalate (a.rowSol.toList.map toString)
+    ++ " ; colsol " ++ " ".intercalate (a.colSol.toList.map toString)
+    ++ " ; u " ++ " ".intercalate (a.u.toList.map showF)
+    ++ " ; v " ++ " ".intercalate (a.v.toList.map showF)
 
 /-- the exact-arithmetic (`Rat`) instantiation of the transcription gives the same answer as its
 `Float` instantiation (integer costs: every double operation of the routine is exact) -/
-def lapRatAgrees (n : Nat) (c : Nat → Nat → Rat) (a : Lap.Full Float) : Bool :=
-  match Lap.lapFull (α := Rat) (lapFuel n) n c (fun _ => -7) (fun _ => -7) (fun _ => 99) (fun _ => 99) with
-  | .ok b => (Lap.allLt n fun i =>
-      decide (a.rowSol i = b.rowSol i) && decide (a.colSol i = b.colSol i) && decide (toRat (a.u i) = b.u i)
-        && decide (toRat (a.v i) = b.v i) && finite (a.u i) && finite (a.v i))
-      && decide (toRat a.cost = b.cost) && finite a.cost
+def lapRatAgrees (k : Kind) (M : PM) (lr lc lu lv : Nat) (a : Lap.LapOut Float) : Bool :=
+  let A : Store Rat := Store.ofFn k M.r M.c M.q
+  match Lap.lap (lapFuel A.nrows) A (Array.replicate lr (-7)) (Array.replicate lc (-7)) (Array.replicate lu 99) (Array.replicate lv 99) with
+  | .ok b => a.rowSol == b.rowSol && a.colSol == b.colSol && a.u.all finite && a.v.all finite && finite a.cost
+      && a.u.map toRat == b.u && a.v.map toRat == b.v && toRat a.cost == b.cost
   | .error _ => false
 
 /-- verdict on the implementation's answer to `lap`:
@@ -520,20 +528,23 @@ def stepUnary (st : St) (w : String) (rest : List String) (impl : Option (List S
       judge ⟨"sumElements", true, [mkOut .lin 1 1 (fun _ _ => Spec.total M.q d.1 d.2) (fun _ _ => Spec.total M.m d.1 d.2)], d.1 * d.2 + 1, M.fin, M.int, true⟩
         (if isCrash t then t else "1" :: "1" :: t)
     pure (out, v)
-  | "lap" => do
-    let M ← runP (do let M ← pMat; pEnd; pure M) rest
+  | "lap" | "lapv" => do
     -- the whole routine is transcribed (`LapFull.lean`): the answer of its `Float` instantiation is
-    -- compared bit-for-bit; the verdict evaluates the certificate on the implementation's answer
-    let d := dimsOf st.kA M
+    -- compared bit-for-bit; the verdict evaluates the certificate on the implementation's answer.
+    -- `lapv lr lc lu lv M`: the caller's output vectors have the lengths lr, lc, lu, lv (`lap M`: dim)
+    let (lens, M) ← runP (do
+      let lens ← if w == "lapv" then (do let a ← pNat; let b ← pNat; let c ← pNat; let d ← pNat; pure (some (a, b, c, d))) else pure none
+      let M ← pMat; pEnd; pure (lens, M)) rest
+    let A := toStore st.kA M
+    let (lr, lc, lu, lv) := lens.getD (A.nrows, A.nrows, A.nrows, A.nrows)
     let out :=
-      if d.1 != d.2 then "exc:bpp" else
-      match Lap.lapFull (lapFuel d.1) d.1 (fun i j => M.at i j) (fun _ => -7) (fun _ => -7) (fun _ => 99.0) (fun _ => 99.0) with
+      match Lap.lap (lapFuel A.nrows) A (Array.replicate lr (-7)) (Array.replicate lc (-7)) (Array.replicate lu 99.0) (Array.replicate lv 99.0) with
       | .ok a =>
         -- integer costs below 2^40: the exact (`Rat`) instantiation must give the same answer
         let cmax := M.a.foldl (fun m x => max m (rabs (toRat x))) 0
-        if M.fin && M.int && decide (cmax < (2 ^ 40 : Nat)) && !lapRatAgrees d.1 M.q a then
-          showLap d.1 a ++ " ; the-Rat-instantiation-differs"
-        else showLap d.1 a
+        if M.fin && M.int && decide (cmax < (2 ^ 40 : Nat)) && !lapRatAgrees st.kA M lr lc lu lv a then
+          showLap a ++ " ; the-Rat-instantiation-differs"
+        else showLap a
       | .error e => showErr e
     pure (out, vOfImpl impl (lapVerdict st.kA M))
   | _ => none
@@ -591,7 +602,7 @@ def stepMult (st : St) (w : String) (rest : List String) (impl : Option (List St
     let A := toStore (st.kin 0) MA; let B := toStore (st.kin 1) MB
     let n := A.ncols
     pure (showRes (mult A B st.O),
-      vOfImpl impl (judge ⟨"mult", A.ncols == B.nrows, [mkOut st.kO A.nrows B.ncols (Spec.mult MA.q MB.q n) (Spec.mult MA.m MB.m n)], n + 2,
+      vOfImpl impl (judgeDep (MA.c == MB.r) ⟨"mult", A.ncols == B.nrows, [mkOut st.kO A.nrows B.ncols (Spec.mult MA.q MB.q n) (Spec.mult MA.m MB.m n)], n + 2,
         MA.fin && MB.fin, MA.int && MB.int, true⟩))
   | "multc" => do
     let (MA, MiA, MB, MiB) ← runP (do let a ← pMat; let ia ← pMat; let b ← pMat; let ib ← pMat; pEnd; pure (a, ia, b, ib)) rest
@@ -646,13 +657,13 @@ def stepMult (st : St) (w : String) (rest : List String) (impl : Option (List St
     let (MA, MB) ← runP (do let a ← pMat; let b ← pMat; pEnd; pure (a, b)) rest
     let A := toStore (st.kin 0) MA; let B := toStore (st.kin 1) MB
     pure (showRes (add A B),
-      vOfImpl impl (judge ⟨"add", sameDims A B, [mkOut (st.kin 0) A.nrows A.ncols (Spec.add MA.q MB.q) (Spec.add MA.m MB.m)], 2,
+      vOfImpl impl (judgeDep (MA.r == MB.r && MA.c == MB.c) ⟨"add", sameDims A B, [mkOut (st.kin 0) A.nrows A.ncols (Spec.add MA.q MB.q) (Spec.add MA.m MB.m)], 2,
         MA.fin && MB.fin, MA.int && MB.int, true⟩))
   | "adds" => do
     let (MA, x, MB) ← runP (do let a ← pMat; let x ← pFlt; let b ← pMat; pEnd; pure (a, x, b)) rest
     let A := toStore (st.kin 0) MA; let B := toStore (st.kin 1) MB
     pure (showRes (addS A x B),
-      vOfImpl impl (judge ⟨"addScaled", sameDims A B, [mkOut (st.kin 0) A.nrows A.ncols (Spec.addS MA.q (rq x) MB.q) (Spec.addS MA.m (rm x) MB.m)], 3,
+      vOfImpl impl (judgeDep (MA.r == MB.r && MA.c == MB.c) ⟨"addScaled", sameDims A B, [mkOut (st.kin 0) A.nrows A.ncols (Spec.addS MA.q (rq x) MB.q) (Spec.addS MA.m (rm x) MB.m)], 3,
         MA.fin && MB.fin && finite x, MA.int && MB.int && isInt x, true⟩))
   | _ => none
 
@@ -696,7 +707,7 @@ def stepProd (st : St) (w : String) (rest : List String) (impl : Option (List St
     let (MA, MB) ← runP (do let a ← pMat; let b ← pMat; pEnd; pure (a, b)) rest
     let A := toStore (st.kin 0) MA; let B := toStore (st.kin 1) MB
     pure (showRes (had A B st.O),
-      vOfImpl impl (judge ⟨"hadamard", sameDims A B, [mkOut st.kO A.nrows A.ncols (Spec.had MA.q MB.q) (Spec.had MA.m MB.m)], 2,
+      vOfImpl impl (judgeDep (MA.r == MB.r && MA.c == MB.c) ⟨"hadamard", sameDims A B, [mkOut st.kO A.nrows A.ncols (Spec.had MA.q MB.q) (Spec.had MA.m MB.m)], 2,
         MA.fin && MB.fin, MA.int && MB.int, true⟩))
   | "hadc" => do
     let (MA, MiA, MB, MiB) ← runP (do let a ← pMat; let ia ← pMat; let b ← pMat; let ib ← pMat; pEnd; pure (a, ia, b, ib)) rest
